@@ -274,19 +274,24 @@ class MailboxData(MailboxDataInterface[Message]):
 
     async def move(self, uid: int, destination: MailboxData, *,
                    recent: bool = False) -> int | None:
-        async with self.messages_lock.write_lock():
+        # The message is added to the destination before it is removed from
+        # the source, so that it exists in at least one of them at every
+        # instant, even if this task is cancelled between the two steps.
+        async with self.messages_lock.read_lock():
             try:
-                message = self._messages.pop(uid)
+                message = self._messages[uid]
             except KeyError:
                 return None
-            self._mod_sequences.expunge([uid])
-            self._updated.set()
         async with destination.messages_lock.write_lock():
             destination._max_uid = dest_uid = destination._max_uid + 1
             new_msg = Message.copy(message, uid=dest_uid, recent=recent)
             destination._messages[dest_uid] = new_msg
             destination._mod_sequences.update([dest_uid])
             destination._updated.set()
+        async with self.messages_lock.write_lock():
+            if self._messages.pop(uid, None) is not None:
+                self._mod_sequences.expunge([uid])
+                self._updated.set()
         return dest_uid
 
     async def get(self, uid: int, cached_msg: CachedMessage) -> Message:
